@@ -482,6 +482,12 @@ func TestC07Phases(t *testing.T) {
 			r.Sample(cc.String())
 		}
 	}
+	for k := 0; k < pick(9, 90); k++ {
+		if !mine(k) {
+			continue
+		}
+		runC07IssuerHold(r, rng.Fork(fmt.Sprint("issuerhold", k)), []string{"b-acknowledged", "b-pending", "b-being-sequenced"}[k%3], k)
+	}
 	for _, ph := range c07Phases {
 		if ph != "none" && r.Counter("held_"+ph) == 0 {
 			if s, n := shardInfo(); n == 1 || s == 0 {
@@ -559,4 +565,162 @@ func TestC07Stress(t *testing.T) {
 	for rep := 0; rep < reps; rep++ {
 		runStress(r, rng.Fork(fmt.Sprint(rep, "/", shard)), 8+rng.Intn(17), per, "C07")
 	}
+}
+
+// runC07IssuerHold: submission A of an entry whose chain carries a NEW issuer
+// is held inside that issuer's upload (a gate in the backend call, the real
+// suspension point) while submission B of the same entry (chain of known
+// issuers) is admitted and, depending on the variant, still pending, being
+// sequenced, or already acknowledged when A goes on. One leaf, one answer.
+func runC07IssuerHold(r *Run, rng *Rng, variant string, n int) {
+	env := NewLogEnv(r, rng.Fork("env"))
+	env.NoTruth = true
+	env.AuditPub = true
+	info := map[string]any{"workload": "issuer-upload-held", "variant": variant}
+	env.CaseInfo = func() any { return info }
+	defer env.Cleanup()
+	simNow.Add(1000)
+	if err := env.Create(nil); err != nil {
+		panic(err)
+	}
+	li, err := env.Load("H", nil)
+	if err != nil {
+		panic(err)
+	}
+	defer li.Abandon()
+	r.Eval(1)
+	ctx := context.Background()
+	// a first round makes issuerBlob(1) a known issuer
+	known := genEntry(rng, ShapeBlobX509)
+	known.Issuers = [][]byte{issuerBlob(1)}
+	s0 := li.SubmitConcurrent(known, false)
+	simNow.Add(10)
+	li.Log.VerifSequence(ctx)
+	li.WaitAck(ctx, s0)
+	x := genEntry(rng, pickOne(rng, []int{ShapeBlobX509, ShapeBlobPrecert}))
+	fresh := []byte(fmt.Sprintf("\x01fresh-issuer-%d-%d", n, rng.Intn(1<<30)))
+	a := cloneEntry(x)
+	a.Issuers = [][]byte{fresh}
+	// B carries no chain certificates: the issuer bookkeeping is serialised by
+	// its own mutex, so a submission WITH issuers would queue behind A's upload
+	b := cloneEntry(x)
+	b.Issuers = nil
+	freshKey := fmt.Sprintf("issuer/%x", refSHA(fresh))
+	reachedA, releaseA := make(chan struct{}, 1), make(chan struct{})
+	reachedR, releaseR := make(chan struct{}, 1), make(chan struct{})
+	holdRoundAt := ""
+	if variant == "b-being-sequenced" {
+		holdRoundAt = "checkpoint"
+	}
+	var onceA, onceR sync.Once
+	li.In.Plan = func(c *Call) Decision {
+		if c.Kind == OpUpload && c.Key == freshKey {
+			return Decision{Apply: true, Gate: func() { onceA.Do(func() { reachedA <- struct{}{}; <-releaseA }) }}
+		}
+		if holdRoundAt != "" && c.Kind == OpUpload && c.Key == holdRoundAt {
+			return Decision{Apply: true, Gate: func() { onceR.Do(func() { reachedR <- struct{}{}; <-releaseR }) }}
+		}
+		return decideOK
+	}
+	var sa *Sub
+	doneA := make(chan struct{})
+	go func() {
+		defer close(doneA)
+		sa = li.SubmitConcurrent(a, false)
+	}()
+	select {
+	case <-reachedA:
+	case <-doneA:
+		// the issuer upload was not reached before admission (nothing held)
+		r.Count("issuer_hold_not_reached", 1)
+	case <-time.After(10 * time.Second):
+		r.Inconcl("issuer upload gate not reached")
+		close(releaseA)
+		close(releaseR)
+		return
+	}
+	var sb *Sub
+	doneB := make(chan struct{})
+	go func() { defer close(doneB); sb = li.SubmitConcurrent(b, false) }()
+	select {
+	case <-doneB:
+	case <-time.After(5 * time.Second):
+		// B queued behind A after all: let A go on, nothing to judge
+		r.Count("issuer_hold_b_blocked", 1)
+		close(releaseA)
+		close(releaseR)
+		<-doneA
+		<-doneB
+		return
+	}
+	var acks []*Ack
+	switch variant {
+	case "b-acknowledged":
+		simNow.Add(10)
+		li.Log.VerifSequence(ctx)
+		acks = append(acks, li.WaitAck(ctx, sb))
+		close(releaseA)
+		<-doneA
+	case "b-pending":
+		close(releaseA)
+		<-doneA
+	case "b-being-sequenced":
+		simNow.Add(10)
+		roundDone := make(chan struct{})
+		go func() { defer close(roundDone); li.Log.VerifSequence(ctx) }()
+		select {
+		case <-reachedR:
+		case <-time.After(10 * time.Second):
+			r.Inconcl("round gate not reached")
+		}
+		close(releaseA)
+		<-doneA
+		close(releaseR)
+		<-roundDone
+		acks = append(acks, li.WaitAck(ctx, sb))
+	}
+	li.In.Plan = nil
+	// whatever is still pending is sequenced now
+	for i := 0; i < 2; i++ {
+		simNow.Add(10)
+		li.Log.VerifSequence(ctx)
+	}
+	if variant == "b-pending" {
+		acks = append(acks, li.WaitAck(ctx, sb))
+	}
+	acks = append(acks, li.WaitAck(ctx, sa))
+	r.DistinctKey(fmt.Sprintf("issuer-hold/%s/a=%s/b=%s", variant, sa.Source, sb.Source))
+	info["source_a"], info["source_b"] = sa.Source, sb.Source
+	seen := map[string]bool{}
+	for _, k := range acks {
+		if k.OK {
+			seen[fmt.Sprintf("%d/%d", k.Index, k.Timestamp)] = true
+		}
+	}
+	if len(seen) > 1 {
+		env.violate("different-acks-for-one-entry", "one entry submitted twice (one submission held inside its issuer upload, %s) received different acknowledgements: %v", variant, sortedKeys(seen))
+	}
+	// exactly one leaf holds the entry
+	if sth := env.PubSTH(); sth != nil {
+		leaves := 0
+		id := identity(x)
+		for nn := int64(0); nn*256 < sth.Size; nn++ {
+			w := int(min(256, sth.Size-nn*256))
+			if tb, ok := env.W.Get(refTilePath(TileCoord{-1, nn, w})); ok {
+				if es, err := decodeDataTileCached(tb, w); err == nil {
+					for _, l := range es {
+						if identity(&ctlog.PendingLogEntry{Certificate: l.Cert, IsPrecert: l.IsPrecert, IssuerKeyHash: l.IssuerKeyHash}) == id {
+							leaves++
+						}
+					}
+				}
+			}
+		}
+		if leaves != 1 {
+			env.violate("duplicate-leaf-without-cause", "an entry submitted twice (one submission held inside its issuer upload, %s; no cache loss) has %d leaves in the tree of size %d", variant, leaves, sth.Size)
+		}
+		r.Count("issuer_hold_cases", 1)
+	}
+	env.CheckAcks()
+	env.FinalChecks()
 }
